@@ -231,6 +231,32 @@ impl Router {
             }
         }
 
+        /*
+            One path can be registered by several items (`"/a".GET(..)`, `"/a".POST(..)`)
+            or by several merged Ohkamis: each registration installed a default OPTIONS
+            handler knowing only its own methods, and the last one won. Rebuild them here
+            from every method that actually has a handler at the path.
+        */
+        for route in routes.keys() {
+            macro_rules! registered_methods {
+                ($($method:ident),*) => {{
+                    let mut methods = Vec::new();
+                    $(
+                        if self.$method.has_handler_at(route.clone().into_iter()) {
+                            methods.push(stringify!($method))
+                        }
+                    )*
+                    methods
+                }}
+            }
+            let methods = registered_methods! { GET, PUT, POST, PATCH, DELETE };
+            self.OPTIONS.register_handler(
+                route.clone().into_iter(),
+                Handler::default_options_with(methods),
+                true
+            ).expect("Failed to register handler");
+        }
+
         let r#final = super::r#final::Router::from(self);
 
         crate::DEBUG!("finalized: {final:#?}");
@@ -264,6 +290,18 @@ impl Node {
             }
         }
         None
+    }
+
+    fn has_handler_at(&self, mut route: RouteSegmentsIterator) -> bool {
+        match route.next() {
+            None => self.handler.is_some(),
+            Some(segment) => {
+                let pattern = Pattern::from(segment);
+                self.children.iter()
+                    .find(|c| c.pattern.as_ref().unwrap().matches(&pattern))
+                    .is_some_and(|c| c.has_handler_at(route))
+            }
+        }
     }
 
     fn register_handler(
